@@ -245,3 +245,9 @@ MANIFEST_ENTRY = dict(
     note='Bounded skeletons and iteration caps (tier B); rank decisions exact on rationals (float robustness not decided); convergence itself not decided.',
 )
 END_MANIFEST_ENTRY = True
+
+
+SENTINELS = globals().get('SENTINELS', []) + [
+    Sentinel('policy-from-bias-maximisers-only', 'msdm.algorithms.multichainpolicyiteration', '        policy_matrix = gain_max_actions & bias_max_actions\n',
+             '        policy_matrix = bias_max_actions & mdp.action_matrix.astype(bool)\n', ['plan_on/c3-multichain/undiscounted/maxit3']),
+]
